@@ -145,6 +145,11 @@ func (d *DHCPv6) Len() int {
 // SerializationBuffer, implementing gopacket.SerializableLayer.
 // See the docs for gopacket.SerializableLayer for more info.
 func (d *DHCPv6) SerializeTo(b gopacket.SerializeBuffer, opts gopacket.SerializeOptions) error {
+	if opts.FixLengths {
+		for i := range d.Options {
+			d.Options[i].Length = uint16(len(d.Options[i].Data))
+		}
+	}
 	plen := int(d.Len())
 
 	data, err := b.PrependBytes(plen)
